@@ -68,6 +68,33 @@ fn mt_result_typed<T: BigT>(g: &GraphSpec) {
             if sinks.iter().any(|h| h.data().samples().iter().any(|s| *s != T::from(s.val()))) {
                 violate("torn-sample", "a sink holds a torn sample".into());
             }
+            // Tags: the vector source marks the first sample of every
+            // repetition; stages that map sample i to sample i carry them
+            // along. Every sink must hold exactly those, once.
+            let one_to_one = |st: &Stage| matches!(st, Stage::AddConst(_) | Stage::XorConst(_) | Stage::MulConst(_) | Stage::MoveWait | Stage::SyncId);
+            let tag_shape = match &g.shape {
+                Shape::Chain(st) => st.iter().all(one_to_one),
+                Shape::Tee(None, None) => true,
+                _ => false,
+            };
+            if tag_shape && g.file_repeat == 0 && g.src_len > 0 {
+                let reps = g.vec_repeat.max(1) as usize;
+                let mut want: Vec<(usize, String)> = vec![];
+                for k in 0..reps {
+                    want.push((k * g.src_len, "VectorSource::start=Bool(true)".into()));
+                    want.push((k * g.src_len, format!("VectorSource::repeat=U64({k})")));
+                }
+                want.push((0, "VectorSource::first=Bool(true)".into()));
+                want.sort();
+                for (j, h) in sinks.iter().enumerate() {
+                    let mut got: Vec<(usize, String)> =
+                        h.data().tags().iter().map(|t| (t.pos() as usize, format!("{}={:?}", t.key(), t.val()))).collect();
+                    got.sort();
+                    if got != want {
+                        violate("tags-differ", format!("sink {j} holds tags {got:?}, the source's markers are {want:?}"));
+                    }
+                }
+            }
             if g.shape == Shape::ToFile {
                 // Everything the source emitted was consumed by the sink: it
                 // has to be in the file (serialised as the value, 8 bytes LE).
